@@ -26,12 +26,48 @@ type pState struct {
 	adv   []bool // one flag per active token loop (innermost last)
 	ls    bool
 	fresh bool // no token has been consumed since the line-level dispatcher loop was (re-)entered
+	// local variables of token-kind type that hold a known constant on this path (`closing := TokenRBracket`)
+	loc map[locK]int
+	// boolean locals with a known value on this path (`_, ok := table[p.current.Type]`)
+	bl map[types.Object]bool
+}
+
+// locK: a local variable, or a field of a local struct variable.
+type locK struct {
+	o types.Object
+	f string
 }
 
 func (s *pState) clone() *pState {
-	return &pState{T: s.T, adv: append([]bool(nil), s.adv...), ls: s.ls, fresh: s.fresh}
+	c := &pState{T: s.T, adv: append([]bool(nil), s.adv...), ls: s.ls, fresh: s.fresh}
+	if len(s.loc) > 0 {
+		c.loc = make(map[locK]int, len(s.loc))
+		for k, v := range s.loc {
+			c.loc[k] = v
+		}
+	}
+	if len(s.bl) > 0 {
+		c.bl = make(map[types.Object]bool, len(s.bl))
+		for k, v := range s.bl {
+			c.bl[k] = v
+		}
+	}
+	return c
 }
-func (s *pState) key() string { return fmt.Sprintf("%v|%v|%v", s.adv, s.ls, s.fresh) }
+func (s *pState) key() string {
+	if len(s.loc) == 0 && len(s.bl) == 0 {
+		return fmt.Sprintf("%v|%v|%v", s.adv, s.ls, s.fresh)
+	}
+	var ls []string
+	for k, v := range s.loc {
+		ls = append(ls, fmt.Sprintf("%s.%s@%d=%d", k.o.Name(), k.f, k.o.Pos(), v))
+	}
+	for k, v := range s.bl {
+		ls = append(ls, fmt.Sprintf("%s@%d=%v", k.Name(), k.Pos(), v))
+	}
+	sort.Strings(ls)
+	return fmt.Sprintf("%v|%v|%v|%s", s.adv, s.ls, s.fresh, strings.Join(ls, ","))
+}
 
 func pNormalize(in []*pState) []*pState {
 	m := map[string]*pState{}
@@ -79,6 +115,9 @@ func pClone(in []*pState) []*pState {
 type parseInterp struct {
 	curField string // name of the parser field that holds the current token (role: the Token-typed field)
 	kindEnv []map[types.Object][]int
+	// kinds of call arguments that depend on the path (a local kind variable): set while the call is
+	// interpreted for the group of states that agree on the value
+	argKinds map[ast.Expr]int
 	c        *Ctx
 	pk       *packagesPackage
 	info     *types.Info
@@ -367,6 +406,9 @@ func (pi *parseInterp) isCurrentType(e ast.Expr) bool {
 }
 
 func (pi *parseInterp) kindOf(e ast.Expr) (int, bool) {
+	if k, ok := pi.argKinds[ast.Unparen(e)]; ok {
+		return k, true
+	}
 	if id, ok := ast.Unparen(e).(*ast.Ident); ok {
 		if k, ok := pi.kinds[id.Name]; ok {
 			return k, true
@@ -585,6 +627,28 @@ func (pi *parseInterp) cond(e ast.Expr, in []*pState, fr *pFrame) (t, f []*pStat
 	// a test of the current token hoisted into a local (`isX := p.current.Type == X || ...; if isX {`): the
 	// local's single definition is the condition (no token is consumed between a definition and its use as a
 	// condition in the same statement list)
+	if id, ok := e.(*ast.Ident); ok {
+		if o := pi.info.Uses[id]; o != nil {
+			any := false
+			for _, s := range in {
+				if _, known := s.bl[o]; known {
+					any = true
+				}
+			}
+			if any {
+				for _, s := range in {
+					v, known := s.bl[o]
+					if !known || v {
+						t = append(t, s.clone())
+					}
+					if !known || !v {
+						f = append(f, s.clone())
+					}
+				}
+				return pNormalize(t), pNormalize(f)
+			}
+		}
+	}
 	if id, ok := e.(*ast.Ident); ok && fr != nil && fr.fd != nil {
 		if v, ok := pi.info.Uses[id].(*types.Var); ok && !v.IsField() {
 			var def ast.Expr
@@ -635,13 +699,61 @@ func (pi *parseInterp) cond(e ast.Expr, in []*pState, fr *pFrame) (t, f []*pStat
 					}
 					return pNormalize(t), pNormalize(f)
 				}
-				// comparison with a variable kind (closingToken): no refinement
+				// comparison with a local variable kind (closingToken): refined where the variable's value is known
+				// on the path
+				if lk, isLoc := pi.localKindExpr(x.Y); isLoc {
+					for _, s := range in {
+						k, known := s.loc[lk]
+						if !known {
+							t, f = append(t, s.clone()), append(f, s.clone())
+							continue
+						}
+						a, b := s.clone(), s.clone()
+						a.T &= 1 << uint(k)
+						b.T &^= 1 << uint(k)
+						if x.Op == token.NEQ {
+							a, b = b, a
+						}
+						t, f = append(t, a), append(f, b)
+					}
+					return pNormalize(t), pNormalize(f)
+				}
 				return pClone(in), pClone(in)
+			}
+			// a local kind variable against a constant (`closing != TokenEOF`)
+			if o := pi.info.Uses[identOf(x.X)]; o != nil {
+				if v, isVar := o.(*types.Var); isVar && !v.IsField() && strings.HasSuffix(types.TypeString(v.Type(), nil), "parser.TokenType") {
+					if k, ok := pi.kindOf(x.Y); ok {
+						for _, s := range in {
+							have, known := s.loc[locK{o, ""}]
+							if !known {
+								t, f = append(t, s.clone()), append(f, s.clone())
+								continue
+							}
+							if (have == k) == (x.Op == token.EQL) {
+								t = append(t, s.clone())
+							} else {
+								f = append(f, s.clone())
+							}
+						}
+						return pNormalize(t), pNormalize(f)
+					}
+				}
 			}
 		}
 	}
 	// a boolean method of the parser (a test of the current token, or a conditional consumption): interpreted
 	if call, ok := e.(*ast.CallExpr); ok {
+		if groups, ok := pi.partitionByArgs(call, in); ok {
+			for _, g := range groups {
+				saved := pi.argKinds
+				pi.argKinds = g.kinds
+				tt, ff := pi.cond(e, g.states, fr)
+				pi.argKinds = saved
+				t, f = append(t, tt...), append(f, ff...)
+			}
+			return pNormalize(t), pNormalize(f)
+		}
 		if m, ok := pi.methodCall(call); ok {
 			if t, f, ok := pi.callBool(m, call, in, fr); ok {
 				return t, f
@@ -737,6 +849,93 @@ func (pi *parseInterp) stmt(st ast.Stmt, in []*pState, fr *pFrame) pFlow {
 		for _, r := range s.Rhs {
 			cur = pi.expr(r, cur, fr)
 		}
+		// `entry, ok := table[p.current.Type]`: a package-level table keyed by token kinds, filled by its initialiser
+		if len(s.Lhs) == 2 && len(s.Rhs) == 1 {
+			if ix, ok := ast.Unparen(s.Rhs[0]).(*ast.IndexExpr); ok && pi.isCurrentType(ix.Index) {
+				if rows, ok := pi.kindTable(ix.X); ok {
+					objOf := func(e ast.Expr) types.Object {
+						id, ok := ast.Unparen(e).(*ast.Ident)
+						if !ok || id.Name == "_" {
+							return nil
+						}
+						if o := pi.info.Defs[id]; o != nil {
+							return o
+						}
+						return pi.info.Uses[id]
+					}
+					vo, bo := objOf(s.Lhs[0]), objOf(s.Lhs[1])
+					var out []*pState
+					for _, st := range cur {
+						rest := st.clone()
+						for _, row := range rows {
+							if st.T&(1<<uint(row.key)) == 0 {
+								continue
+							}
+							hit := st.clone()
+							hit.T = 1 << uint(row.key)
+							rest.T &^= 1 << uint(row.key)
+							if bo != nil {
+								if hit.bl == nil {
+									hit.bl = map[types.Object]bool{}
+								}
+								hit.bl[bo] = true
+							}
+							if vo != nil {
+								if hit.loc == nil {
+									hit.loc = map[locK]int{}
+								}
+								for f, k := range row.fields {
+									hit.loc[locK{vo, f}] = k
+								}
+							}
+							out = append(out, hit)
+						}
+						if bo != nil {
+							if rest.bl == nil {
+								rest.bl = map[types.Object]bool{}
+							}
+							rest.bl[bo] = false
+						}
+						out = append(out, rest)
+					}
+					fl.next = pNormalize(out)
+					return fl
+				}
+			}
+		}
+		// local variables of token-kind type: remember a constant, forget anything else
+		if len(s.Lhs) == len(s.Rhs) {
+			for i, l := range s.Lhs {
+				id, ok := ast.Unparen(l).(*ast.Ident)
+				if !ok || id.Name == "_" {
+					continue
+				}
+				o := pi.info.Defs[id]
+				if o == nil {
+					o = pi.info.Uses[id]
+				}
+				v, ok := o.(*types.Var)
+				if !ok || v.IsField() || !strings.HasSuffix(types.TypeString(v.Type(), nil), "parser.TokenType") {
+					continue
+				}
+				var k int
+				known := false
+				if rid, ok := ast.Unparen(s.Rhs[i]).(*ast.Ident); ok {
+					k, known = pi.kinds[rid.Name]
+				}
+				cur = pClone(cur)
+				for _, st := range cur {
+					if known {
+						if st.loc == nil {
+							st.loc = map[locK]int{}
+						}
+						st.loc[locK{o, ""}] = k
+					} else {
+						delete(st.loc, locK{o, ""})
+					}
+				}
+			}
+		}
 		fl.next = cur
 	case *ast.DeclStmt, *ast.EmptyStmt, *ast.IncDecStmt:
 		fl.next = in
@@ -818,7 +1017,23 @@ func (pi *parseInterp) stmt(st ast.Stmt, in []*pState, fr *pFrame) pFlow {
 		}
 		fl.next = pNormalize(fl.next)
 	case *ast.TypeSwitchStmt:
-		// type switches on values: bodies may parse further
+		// type switches on values: bodies may parse further; the switched expression may itself parse
+		// (`switch dir := p.parseDirective().(type)`)
+		if s.Init != nil {
+			in = pi.stmt(s.Init, in, fr).next
+		}
+		switch a := s.Assign.(type) {
+		case *ast.AssignStmt:
+			for _, r := range a.Rhs {
+				if ta, ok := ast.Unparen(r).(*ast.TypeAssertExpr); ok {
+					in = pi.expr(ta.X, in, fr)
+				}
+			}
+		case *ast.ExprStmt:
+			if ta, ok := ast.Unparen(a.X).(*ast.TypeAssertExpr); ok {
+				in = pi.expr(ta.X, in, fr)
+			}
+		}
 		var all []*pState
 		for _, cl := range s.Body.List {
 			cc := cl.(*ast.CaseClause)
@@ -1033,6 +1248,16 @@ func (pi *parseInterp) call(m string, call *ast.CallExpr, in []*pState, fr *pFra
 	if !pi.mutates(fd.Body, 0) {
 		return in
 	}
+	if groups, ok := pi.partitionByArgs(call, in); ok {
+		var out []*pState
+		for _, g := range groups {
+			saved := pi.argKinds
+			pi.argKinds = g.kinds
+			out = append(out, pi.call(m, call, g.states, fr)...)
+			pi.argKinds = saved
+		}
+		return pNormalize(out)
+	}
 	if pi.skipFns[m] && !pi.skipFns[fr.fd.Name.Name] && !pi.quiet {
 		// P-RESYNC
 		for _, s := range in {
@@ -1115,4 +1340,183 @@ func fullStrNoPos(e ast.Expr) string {
 		return x.Name
 	}
 	return "?"
+}
+
+// localKindExpr: e is a local variable of token-kind type or a token-kind field of a local struct variable.
+func (pi *parseInterp) localKindExpr(e ast.Expr) (locK, bool) {
+	e = ast.Unparen(e)
+	if t := pi.info.TypeOf(e); t == nil || !strings.HasSuffix(types.TypeString(t, nil), "parser.TokenType") {
+		return locK{}, false
+	}
+	switch x := e.(type) {
+	case *ast.Ident:
+		if v, ok := pi.info.Uses[x].(*types.Var); ok && !v.IsField() && v.Parent() != nil && v.Parent() != v.Pkg().Scope() {
+			return locK{v, ""}, true
+		}
+	case *ast.SelectorExpr:
+		if id, ok := ast.Unparen(x.X).(*ast.Ident); ok {
+			if v, ok := pi.info.Uses[id].(*types.Var); ok && !v.IsField() && v.Parent() != nil && v.Parent() != v.Pkg().Scope() {
+				return locK{v, x.Sel.Name}, true
+			}
+		}
+	}
+	return locK{}, false
+}
+
+type argGroup struct {
+	kinds  map[ast.Expr]int
+	states []*pState
+}
+
+// partitionByArgs: when an argument of the call is a local kind expression whose value is known on some paths,
+// the states are grouped by those values so that the callee can be interpreted with a constant kind.
+func (pi *parseInterp) partitionByArgs(call *ast.CallExpr, in []*pState) ([]argGroup, bool) {
+	type dep struct {
+		e  ast.Expr
+		lk locK
+	}
+	var deps []dep
+	for _, a := range call.Args {
+		a = ast.Unparen(a)
+		if _, done := pi.argKinds[a]; done {
+			continue
+		}
+		if lk, ok := pi.localKindExpr(a); ok {
+			for _, s := range in {
+				if _, known := s.loc[lk]; known {
+					deps = append(deps, dep{a, lk})
+					break
+				}
+			}
+		}
+	}
+	if len(deps) == 0 {
+		return nil, false
+	}
+	byKey := map[string]*argGroup{}
+	var order []string
+	for _, s := range in {
+		kinds := map[ast.Expr]int{}
+		for k, v := range pi.argKinds {
+			kinds[k] = v
+		}
+		key := ""
+		for _, d := range deps {
+			if k, known := s.loc[d.lk]; known {
+				kinds[d.e] = k
+				key += fmt.Sprintf("%d,", k)
+			} else {
+				key += "?,"
+			}
+		}
+		g := byKey[key]
+		if g == nil {
+			g = &argGroup{kinds: kinds}
+			byKey[key] = g
+			order = append(order, key)
+		}
+		g.states = append(g.states, s)
+	}
+	sort.Strings(order)
+	var out []argGroup
+	for _, k := range order {
+		out = append(out, *byKey[k])
+	}
+	return out, true
+}
+
+type kindRow struct {
+	key    int
+	fields map[string]int
+}
+
+// kindTable: e names a package-level map keyed by token kinds whose only definition is its initialiser; the
+// rows carry the token-kind fields of struct values.
+func (pi *parseInterp) kindTable(e ast.Expr) ([]kindRow, bool) {
+	id, ok := ast.Unparen(e).(*ast.Ident)
+	if !ok {
+		return nil, false
+	}
+	v, ok := pi.info.Uses[id].(*types.Var)
+	if !ok || v.Pkg() == nil || v.Parent() != v.Pkg().Scope() {
+		return nil, false
+	}
+	var lit *ast.CompositeLit
+	written := false
+	for _, f := range pi.pk.Syntax {
+		ast.Inspect(f, func(x ast.Node) bool {
+			switch n := x.(type) {
+			case *ast.ValueSpec:
+				for i, nm := range n.Names {
+					if pi.info.Defs[nm] == v && i < len(n.Values) {
+						lit, _ = ast.Unparen(n.Values[i]).(*ast.CompositeLit)
+					}
+				}
+			case *ast.AssignStmt:
+				for _, l := range n.Lhs {
+					l = ast.Unparen(l)
+					if ix, ok := l.(*ast.IndexExpr); ok {
+						l = ast.Unparen(ix.X)
+					}
+					if lid, ok := l.(*ast.Ident); ok && pi.info.Uses[lid] == v {
+						written = true
+					}
+				}
+			case *ast.CallExpr:
+				if fid, ok := ast.Unparen(n.Fun).(*ast.Ident); ok && (fid.Name == "delete" || fid.Name == "clear") && len(n.Args) > 0 {
+					if lid, ok := ast.Unparen(n.Args[0]).(*ast.Ident); ok && pi.info.Uses[lid] == v {
+						written = true
+					}
+				}
+			case *ast.UnaryExpr:
+				if n.Op == token.AND {
+					if lid, ok := ast.Unparen(n.X).(*ast.Ident); ok && pi.info.Uses[lid] == v {
+						written = true
+					}
+				}
+			}
+			return true
+		})
+	}
+	if lit == nil || written {
+		return nil, false
+	}
+	var rows []kindRow
+	for _, el := range lit.Elts {
+		kv, ok := el.(*ast.KeyValueExpr)
+		if !ok {
+			return nil, false
+		}
+		kid, ok := ast.Unparen(kv.Key).(*ast.Ident)
+		if !ok {
+			return nil, false
+		}
+		k, ok := pi.kinds[kid.Name]
+		if !ok {
+			return nil, false
+		}
+		row := kindRow{key: k, fields: map[string]int{}}
+		if vl, ok := ast.Unparen(kv.Value).(*ast.CompositeLit); ok {
+			var st *types.Struct
+			if t := pi.info.TypeOf(vl); t != nil {
+				st, _ = t.Underlying().(*types.Struct)
+			}
+			for i, fe := range vl.Elts {
+				name := ""
+				val := fe
+				if fkv, ok := fe.(*ast.KeyValueExpr); ok {
+					name, val = identOf(fkv.Key).Name, fkv.Value
+				} else if st != nil && i < st.NumFields() {
+					name = st.Field(i).Name()
+				}
+				if vid, ok := ast.Unparen(val).(*ast.Ident); ok {
+					if fk, ok := pi.kinds[vid.Name]; ok && name != "" {
+						row.fields[name] = fk
+					}
+				}
+			}
+		}
+		rows = append(rows, row)
+	}
+	return rows, len(rows) > 0
 }
